@@ -155,3 +155,48 @@ func HarnessC08Keywords() {
 		verifCheck(false, "string-literal-not-a-string-node")
 	}
 }
+
+// HarnessC08Diagnosed: a workflow whose lower-case spelling has diagnostics
+// that depend on names being matched (a wrongly typed input and an unknown
+// secret of a local reusable workflow call, a wrongly typed dispatch-input
+// default, an undeclared action input next to a declared one): spelling the
+// call-site names with a symbolic letter case must keep every diagnostic where
+// it was.
+func HarnessC08Diagnosed() {
+	proj := &Project{root: "/r"}
+	mk := func(cased bool) []*Error {
+		nm := func(tag, base string) string {
+			if cased {
+				return verifCased(tag, base)
+			}
+			return base
+		}
+		cache := NewLocalReusableWorkflowCache(proj, "/r", nil)
+		cache.cache["./.github/workflows/callee.yml"] = &ReusableWorkflowMetadata{
+			Inputs: ReusableWorkflowMetadataInputs{
+				"retry_count": {Name: "retry_count", Required: true, Type: NumberType{}},
+				"flag":        {Name: "flag", Required: false, Type: BoolType{}},
+			},
+			Secrets: ReusableWorkflowMetadataSecrets{"token": {Name: "token", Required: true}},
+			Outputs: ReusableWorkflowMetadataOutputs{"result": {Name: "result"}},
+		}
+		s := yScalar
+		doc := yDoc(yMap(s("on"), s("push"), s("jobs"), yMap(
+			s("call"), yMap(s("uses"), s("./.github/workflows/callee.yml"),
+				s("with"), yMap(s(nm("k1", "retry_count")), s("${{ 'three' }}"), s(nm("k2", "flag")), s("${{ 'x' }}")),
+				s("secrets"), yMap(s(nm("k3", "token")), s("v"))),
+			s("use"), yMap(s("needs"), ySeq(s("call")), s("runs-on"), s("ubuntu-latest"), s("steps"), ySeq(
+				yMap(s("run"), s("echo ${{ needs.call.outputs."+nm("k4", "result")+" }} ${{ needs.call.outputs.nope }}")),
+				yMap(s("uses"), s("actions/checkout@v4"), s("with"), yMap(s(nm("k5", "ref")), s("x"), s("nope"), s("y"))),
+			)),
+		)))
+		verifPlace(doc, 1, 0)
+		la := NewLocalActionsCache(nil, nil)
+		return verifLintNode(doc, []Rule{NewRuleWorkflowCall("/r/.github/workflows/w.yml", cache), NewRuleExpression(la, cache), NewRuleAction(la), NewRuleJobNeeds()})
+	}
+	e0 := mk(false)
+	errs := mk(true)
+	verifReach("variant")
+	verifCheckf(len(e0) >= 3, "baseline-lost-its-diagnostics", verifErrTextConc(e0))
+	verifCheckf(verifSamePositions(e0, errs), "case-change-changes-diagnostics", verifErrTextConc(errs))
+}
